@@ -358,7 +358,7 @@ class Scrollable(WidgetDecoration[WrappedWidget]):
         self._scroll_action = None
 
         _maxcol, maxrow = size
-        trim_top = self._trim_top
+        trim_top = old_trim_top = self._trim_top
         canv_rows = canv.rows()
 
         if trim_top < 0:
@@ -367,6 +367,9 @@ class Scrollable(WidgetDecoration[WrappedWidget]):
 
         if canv_rows <= maxrow:
             self._trim_top = 0  # Reset scroll position
+            if self._trim_top != old_trim_top:
+                # canvases cached for other sizes show the old position
+                self._invalidate()
             return
 
         def ensure_bounds(new_trim_top: int) -> int:
@@ -400,6 +403,10 @@ class Scrollable(WidgetDecoration[WrappedWidget]):
                 self._trim_top = cursrow
             elif cursrow >= self._trim_top + maxrow:
                 self._trim_top = max(0, cursrow - maxrow + 1)
+
+        if self._trim_top != old_trim_top:
+            # canvases cached for other sizes show the old position
+            self._invalidate()
 
     def _get_original_widget_size(
         self,
